@@ -515,6 +515,70 @@ def is_armed(p, fi, tgt):
                         and isinstance(n.value.func, ast.Attribute) and n.value.func.attr == 'event' for n in walk_no_nested(fi.node))
 
 
+def scenario_rearm(p, fi, ps, sites):
+    """For every wait `yield any_of([... persistent armed events ...])` and every persistent element X of the wait set, consider the
+    wake-up scenario "X is triggered, the other persistent elements are not": every path compatible with that scenario must install a
+    fresh event in X before the back-edge, otherwise the next wait returns at once, for ever."""
+    for pa in ps:
+        if pa.raises or pa.status not in ('backedge',):
+            continue
+        evs = pa.events
+        for yi, y in enumerate(evs):
+            if y.kind != 'yield' or not (y.value and y.value[0] == 'callres' and y.value[1].endswith('any_of')):
+                continue
+            lst = None
+            for x in evs[:yi]:
+                if x.kind == 'xcall' and x.d.get('result') == y.value and x.args:
+                    lst = x.args[0]
+            elems = ()
+            if lst is not None:
+                mk = [m for m in evs[:yi] if m.kind == 'mklist' and m.value == lst]
+                elems = mk[-1].elems if mk else (lst[1] if lst[0] == 'list' else ())
+            persistent = [value_path(v) for v in elems if value_path(v) and is_armed(p, fi, value_path(v))]
+            if not persistent:
+                continue
+            waitlist_names = {m.name for m in evs[:yi] if m.kind == 'mklist' and m.value == lst}
+            after = evs[yi + 1:]
+            for X in persistent:
+                compatible = True
+                denotes = {}          # lhs text -> attribute path it denotes in this scenario
+                for e in after:
+                    if e.kind == 'lookup' and (e.src in waitlist_names) and 'triggered' in e.pred:
+                        if e.outcome != 'found':
+                            compatible = False
+                        else:
+                            denotes[repr(e.value)] = X
+                    if e.kind == 'setattr' and e.on_self:
+                        vp = value_path(e.value)
+                        if vp is not None and is_armed(p, fi, vp):
+                            denotes[e.target] = vp
+                        elif repr(e.value) in denotes:
+                            denotes[e.target] = denotes[repr(e.value)]
+                        elif e.value == ('const', None):
+                            denotes[e.target] = None
+                    if e.kind == 'cond' and not e.d.get('synthetic'):
+                        t = e.text
+                        if t.endswith('.triggered') and t[:-len('.triggered')] in persistent:
+                            want = (t[:-len('.triggered')] == X)
+                            if e.polarity != want:
+                                compatible = False
+                        elif ' is self.' in t and not t.startswith('not'):
+                            lhs, T = t.split(' is ', 1)
+                            if lhs in denotes and denotes[lhs] is not None:
+                                if e.polarity != (denotes[lhs] == T):
+                                    compatible = False
+                        elif t in denotes:
+                            if e.polarity != (denotes[t] is not None):
+                                compatible = False
+                if not compatible:
+                    continue
+                key = f'{fi.key}::re-arms({X})'
+                rec = sites.setdefault(key, {'ok': True, 'e': y, 'pa': pa})
+                rearmed = any(x.kind == 'setattr' and x.target == X and x.value[0] == 'newevent' for x in after)
+                if not rearmed and rec['ok']:
+                    rec.update(ok=False, pa=pa, e=y)
+
+
 def check_rearm(p, r):
     """A process that finds one of its wake-up events triggered re-arms it (fresh env.event()) before it waits again."""
     from .. import storewalk
@@ -580,6 +644,7 @@ def check_rearm(p, r):
                 rearmed = any(x.kind == 'setattr' and x.target == tgt and x.value[0] == 'newevent' for x in evs[i:])
                 if not rearmed and rec['ok']:
                     rec.update(ok=False, pa=pa, e=e)
+        scenario_rearm(p, fi, ps, sites)
         for key, rec in sorted(sites.items()):
             e = rec['e']
             r.analysed_functions.add(fi.key)
